@@ -177,6 +177,8 @@ fn doc_of(case: &Value) -> Value {
             };
         }
     }
+    // `dup`: the document is the array of two copies of what was built (two equal deep values to compare)
+    if case["dup"].as_bool() == Some(true) { let d2 = doc.clone(); doc = Value::Array(vec![doc, d2]); }
     doc
 }
 
@@ -483,6 +485,72 @@ fn generic_case<const V: bool>(line: &str) -> String {
     }) { Ok(s) => s, Err(_) => "{\"panic\":1}".to_string() }
 }
 
+// ---- a fourth Queryable type: equal member values are stored ONCE and shared (`Rc`), as after hash-consing or YAML anchors.
+// Node identity (addresses) is not part of the view: an engine that remembers visited addresses goes wrong here.
+#[derive(Clone)]
+enum AltS { Null, Bool(bool), Int(i64), Uint(u64), Float(f64), Str(String), Arr(Vec<AltS>), Obj(Vec<(String, std::rc::Rc<AltS>)>) }
+impl std::fmt::Debug for AltS { fn fmt(&self, f: &mut std::fmt::Formatter<'_>) -> std::fmt::Result { write!(f, "AltS") } }
+impl From<&str> for AltS { fn from(s: &str) -> Self { AltS::Str(s.to_string()) } }
+impl From<String> for AltS { fn from(s: String) -> Self { AltS::Str(s) } }
+impl From<bool> for AltS { fn from(b: bool) -> Self { AltS::Bool(b) } }
+impl From<i64> for AltS { fn from(i: i64) -> Self { AltS::Int(i) } }
+impl From<f64> for AltS { fn from(f: f64) -> Self { if f.is_finite() { AltS::Float(f) } else { AltS::Null } } }
+impl From<Vec<AltS>> for AltS { fn from(v: Vec<AltS>) -> Self { AltS::Arr(v) } }
+impl Default for AltS { fn default() -> Self { AltS::Arr(vec![]) } }
+impl PartialEq for AltS { fn eq(&self, other: &Self) -> bool { self.back() == other.back() } }
+impl AltS {
+    fn of(v: &Value, cache: &mut std::collections::HashMap<String, std::rc::Rc<AltS>>) -> AltS {
+        match v {
+            Value::Null => AltS::Null,
+            Value::Bool(b) => AltS::Bool(*b),
+            Value::Number(n) => if let Some(i) = n.as_i64() { AltS::Int(i) } else if let Some(u) = n.as_u64() { AltS::Uint(u) } else { AltS::Float(n.as_f64().unwrap()) },
+            Value::String(s) => AltS::Str(s.clone()),
+            Value::Array(a) => AltS::Arr(a.iter().map(|x| AltS::of(x, cache)).collect()),
+            Value::Object(o) => AltS::Obj(o.iter().map(|(k, x)| {
+                let key = x.to_string();
+                let rc = match cache.get(&key) { Some(rc) => rc.clone(), None => { let rc = std::rc::Rc::new(AltS::of(x, cache)); cache.insert(key, rc.clone()); rc } };
+                (k.clone(), rc)
+            }).collect()),
+        }
+    }
+    fn back(&self) -> Value {
+        match self {
+            AltS::Null => Value::Null, AltS::Bool(b) => Value::Bool(*b), AltS::Int(i) => Value::from(*i), AltS::Uint(u) => Value::from(*u), AltS::Float(f) => Value::from(*f),
+            AltS::Str(s) => Value::String(s.clone()), AltS::Arr(a) => Value::Array(a.iter().map(|x| x.back()).collect()),
+            AltS::Obj(o) => Value::Object(o.iter().map(|(k, v)| (k.clone(), v.back())).collect()),
+        }
+    }
+}
+impl Queryable for AltS {
+    fn get(&self, key: &str) -> Option<&Self> {
+        let key = if key.starts_with('\'') && key.ends_with('\'') { key.trim_matches(|c| c == '\'') }
+                  else if key.starts_with('"') && key.ends_with('"') { key.trim_matches(|c| c == '"') } else { key };
+        match self { AltS::Obj(o) => o.iter().find(|(k, _)| k == key).map(|(_, v)| &**v), _ => None }
+    }
+    fn as_array(&self) -> Option<&Vec<Self>> { match self { AltS::Arr(a) => Some(a), _ => None } }
+    fn as_object(&self) -> Option<Vec<(&String, &Self)>> { match self { AltS::Obj(o) => Some(o.iter().map(|(k, v)| (k, &**v)).collect()), _ => None } }
+    fn as_str(&self) -> Option<&str> { match self { AltS::Str(s) => Some(s), _ => None } }
+    fn as_i64(&self) -> Option<i64> { match self { AltS::Int(i) => Some(*i), AltS::Uint(u) => i64::try_from(*u).ok(), _ => None } }
+    fn as_f64(&self) -> Option<f64> { match self { AltS::Float(f) => Some(*f), AltS::Int(i) => Some(*i as f64), AltS::Uint(u) => Some(*u as f64), _ => None } }
+    fn as_bool(&self) -> Option<bool> { match self { AltS::Bool(b) => Some(*b), _ => None } }
+    fn null() -> Self { AltS::Null }
+    fn extension_custom(name: &str, args: Vec<std::borrow::Cow<Self>>) -> Self {
+        let vals: Vec<std::borrow::Cow<Value>> = args.iter().map(|a| std::borrow::Cow::Owned(a.back())).collect();
+        AltS::of(&<Value as Queryable>::extension_custom(name, vals), &mut std::collections::HashMap::new())
+    }
+}
+fn generic_shared_case(line: &str) -> String {
+    let case: Value = match serde_json::from_str(line) { Ok(v) => v, Err(e) => return format!("{{\"badjson\":\"{}\"}}", e) };
+    let q = case["q"].as_str().unwrap_or("").to_string();
+    let doc = AltS::of(&doc_of(&case), &mut std::collections::HashMap::new());
+    match std::panic::catch_unwind(std::panic::AssertUnwindSafe(|| {
+        match jsonpath_rust::query::js_path(&q, &doc) {
+            Ok(rs) => format!("{{\"ok\":[{}]}}", rs.into_iter().map(|r| { let p = r.clone().path(); let v = r.val(); format!("{{\"p\":{},\"v\":{}}}", cps(&p), canon(&v.back())) }).collect::<Vec<_>>().join(",")),
+            Err(_) => "{\"err\":1}".to_string(),
+        }
+    })) { Ok(s) => s, Err(_) => "{\"panic\":1}".to_string() }
+}
+
 // ---- programmatically built queries: JSON rendering of the AST -> JpQuery (same wire format as the dumper above)
 fn cps_to_string(v: &Value) -> String {
     v.as_array().map(|a| a.iter().filter_map(|x| x.as_u64().and_then(|c| char::from_u32(c as u32))).collect()).unwrap_or_default()
@@ -631,6 +699,7 @@ fn main() {
             "hist" => hist_case(&line),
             "generic" => generic_case::<false>(&line),
             "generic2" => generic_case::<true>(&line),
+            "generic3" => generic_shared_case(&line),
             "ast" => ast_case(&line),
             _ => parse_case(&line),
         };
